@@ -581,7 +581,9 @@ def select__array_fold_left_right_functions(self: XPathFunction, context: ta.Con
         context = self.context
 
     func = self[2][1] if self[2].symbol == ':' else self[2]
-    if not isinstance(func, XPathFunction):
+    if not isinstance(func, XPathFunction) or \
+            func.symbol != 'function' and not func.is_reference():
+        # an expression that evaluates to a function item (also a function call)
         func = self.get_argument(context, index=2, cls=XPathFunction, required=True)
     if func.arity != 2:
         raise self.error('XPTY0004', "function arity must be 2")
